@@ -100,6 +100,7 @@ func runC03(c *core.Ctx) {
 	serverRangeDispatch(c, "C03.R9")
 	serverPostSuccessRejections(c, "C03.R10")
 	mediaTypePassedUnchanged(c, "C03.R4")
+	wrapperHoldsItsRegistries(c, "C03.R5", "ocidebug", "New")
 }
 
 // describe a value stored into a Request field in terms of method fn's parameters.
